@@ -5,7 +5,7 @@ import ast
 from ..astq import compare_normal, conds, expand, facts_of, is_name, returns_with_conds, is_self_attr, kwarg, parse_fixture, returns_of
 from ..callgraph import CallGraph
 from ..cfg import CFG
-from ..core import AnalysisError, norm, walk_local, FuncInfo
+from ..core import AnalysisError, call_name, norm, walk_local, FuncInfo
 from ..pairing import (classify_stmt, contextvars_of, journal_findings, node_probe, released_on_all_normal_paths, rollback_findings)
 
 PAIRS = [
@@ -106,14 +106,15 @@ def run(repo, chk):
                 if kind != "acq":
                     continue
                 acq = norm(pr)[:80]
+                acq_key = call_name(pr)
                 for culprit, path in bad.get((res, acq), []):
                     same = culprit == acq
-                    chk.ob("R05.1", f"{fi.qual}:{res}:after[{acq}]:raises[{culprit}]", False, fi.where,
+                    chk.ob("R05.1", f"{fi.qual}:{res}:after[{acq_key}]:raises[{culprit}]", False, fi.where,
                            (f"`{acq}` ({detail}) can fail half-way (after tooling some selector levels) and " if same else
                             f"after `{acq}` ({detail}) the statement `{culprit}` may raise and ") +
                            f"leaves {fi.qual} without releasing {res}", detail={"path": path})
                 if (res, acq) not in bad:
-                    chk.ob("R05.1", f"{fi.qual}:{res}:after[{acq}]", True, fi.where,
+                    chk.ob("R05.1", f"{fi.qual}:{res}:after[{acq_key}]", True, fi.where,
                            f"no exceptional exit after `{acq}` misses the release of {res}")
 
     # journaled rollbacks release exactly what was acquired
